@@ -171,6 +171,7 @@ PLAN = {
             {"name": "race-1cpu", "leg": "race", "flavour": "native", "shards": 1, "shards_thorough": 4, "cpus": "1", "scale": 0.2},
             {"name": "tsan", "flavour": "tsan", "shards": 2, "shards_thorough": 8, "scale": 0.2, "timeout": 1200, "thorough_only": True},
             {"name": "miri", "flavour": "miri", "shards": 6, "shards_thorough": 48, "miriflags": IGN, "timeout": 1500},
+            {"name": "clone-race", "flavour": "native", "shards": 2, "shards_thorough": 8, "scale_thorough": 1.0},
         ],
     },
     "C16": {
@@ -191,6 +192,7 @@ PLAN = {
             {"name": "overlap", "flavour": "native", "shards": 4, "shards_thorough": 16},
             {"name": "tsan", "flavour": "tsan", "shards": 2, "shards_thorough": 8, "scale": 0.2, "timeout": 1200, "thorough_only": True},
             {"name": "miri", "flavour": "miri", "shards": 6, "shards_thorough": 48, "timeout": 1500},
+            {"name": "consumers", "flavour": "native", "shards": 2, "shards_thorough": 8},
         ],
     },
     "C15": {
@@ -244,6 +246,7 @@ PLAN = {
             {"name": "concurrent-hooks", "flavour": "native", "shards": 2, "shards_thorough": 8, "scale": 0.5},
             {"name": "directed", "flavour": "native", "shards": 2, "shards_thorough": 8},
             {"name": "asan", "flavour": "asan", "shards": 2, "shards_thorough": 8, "thorough_only": True},
+            {"name": "absolute-race", "flavour": "native", "shards": 2, "shards_thorough": 8},
         ],
     },
     "C08": {
